@@ -35,6 +35,8 @@ pub struct Stats {
     pub states: HashSet<String>,
     pub cfgs: HashSet<String>,
     pub other_symptoms: Vec<String>,
+    /// per-configuration digest of everything observed (order independent), for cross-build comparison
+    pub digests: BTreeMap<String, u64>,
 }
 impl Stats {
     pub fn bump(&mut self, k: &str, n: u64) {
@@ -66,6 +68,8 @@ pub struct Ctx {
     pub sample_every: u64,
     /// breadcrumb file: the case being executed, rewritten before every case
     pub crumb: Option<std::fs::File>,
+    /// accumulate per-configuration observation digests (C19)
+    pub digest_on: bool,
     /// run a seeded stratified sample of the case space instead of enumerating it (slow tools)
     pub sampled: bool,
     /// interpreter mode (Miri): the tool is the monitor, harness-side byte scans and redundant views are skipped
@@ -235,6 +239,7 @@ impl Ctx {
                 .strs("states", &states)
                 .strs("cfgs", &cfgs)
                 .strs("other_symptoms", &self.stats.other_symptoms)
+                .map("digests", &self.stats.digests)
                 .render()
         );
     }
@@ -313,6 +318,8 @@ pub struct Case<'a> {
     pub leaks_ok: bool,
     pub check_clones: bool,
     pub base_before: Vec<(usize, usize)>,
+    /// running hash of every operation, outcome and snapshot of this case
+    pub trace: u64,
 }
 
 pub const NVECS: usize = 3;
@@ -349,6 +356,7 @@ impl<'a> Case<'a> {
             leaks_ok: false,
             check_clones: true,
             base_before: Vec::new(),
+            trace: 0,
         }
     }
 
@@ -524,6 +532,14 @@ impl<'a> Case<'a> {
             }
         }
         self.post_check(ctx, &sig, &desc, &exp.resync, Some(&before));
+        if ctx.digest_on && !matches!(op, Op::CloneEmptyIn { target: Target::Heap, .. }) {
+            let mut t = format!("{op}|{:?}|{:?}|{}", out.vals, out.lens, out.panicked);
+            for v in 0..NVECS {
+                let s = self.rig.snap(v);
+                t.push_str(&format!("|{:?},{}", s.vals, s.cap));
+            }
+            self.trace = crate::util::mix64(self.trace ^ fnv(&t));
+        }
         (out, exp)
     }
 
@@ -825,6 +841,10 @@ impl<'a> Case<'a> {
 
     /// Drop everything and check that nothing is left alive.
     pub fn finish(mut self, ctx: &mut Ctx) -> bool {
+        if ctx.digest_on && self.trace != 0 {
+            let e = ctx.stats.digests.entry(self.cfg.name.clone()).or_insert(0);
+            *e = e.wrapping_add(self.trace) & 0x000f_ffff_ffff_ffff;
+        }
         let desc = format!("{} | teardown", self.desc);
         let cfgname = self.cfg.name.clone();
         if let Some(msg) = self.rig.teardown() {
